@@ -19,21 +19,34 @@ def limbs(x):
 
 def compile_override():
     ws = common.tlc_workspace()
-    if os.path.exists(os.path.join(ws, "BigNatX.class")): return
-    rc, out = common.sh(["javac", "-cp", common.TLAJAR, "-d", ws, os.path.join(common.VERIF, "specs/num/BigNatX.java")], timeout=120)
-    if rc != 0: raise common.Infra("javac failed for the BigNatX accelerator:\n" + out[-2000:])
+    if os.path.exists(os.path.join(ws, "EcdsaBigX.class")): return
+    rc, out = common.sh(["javac", "-cp", common.TLAJAR, "-d", ws, os.path.join(common.VERIF, "specs/num/BigNatX.java"),
+                         os.path.join(common.VERIF, "specs/ec/EcdsaBigX.java")], timeout=120)
+    if rc != 0: raise common.Infra("javac failed for the BigNatX / EcdsaBigX accelerators:\n" + out[-2000:])
 
-_self_done = threading.Lock(); _self_ok = []
+_self = {"thread": None, "err": None, "runs": []}
+def start_self_check():
+    """background: EcdsaBig (limb tuples) = Ecdsa/EcGroup (native integers) on the synthetic curves, and the published
+    signature examples (X9.62 J.3.1, RFC 6979 A.2.5, GOST R 34.10-2012 A.1/A.2) re-derived from EcdsaBig - both decided by TLC"""
+    if _self["thread"] is not None: return
+    compile_override()
+    def work():
+        try:
+            for mod, token in (("EcdsaBigSelf", "limb-tuple definitions agree"), ("EcdsaVectors", "published examples are reproduced")):
+                r = common.tlc(mod, workers=1, xss="256m", xmx="3g", timeout=1500)
+                if r.rc != 0 or token not in r.out:
+                    _self["err"] = "%s failed:\n%s" % (mod, r.out[-3000:]); return
+                _self["runs"].append((r, mod))
+        except Exception as e:       # reported by self_check()
+            _self["err"] = str(e)
+    _self["thread"] = threading.Thread(target=work); _self["thread"].start()
+
 def self_check(ctx):
-    """EcdsaBig (limb tuples) = Ecdsa/EcGroup (native integers) on the synthetic curves: decided by TLC once per run"""
-    with _self_done:
-        if _self_ok: return
-        compile_override()
-        r = common.tlc("EcdsaBigSelf", workers=1, xss="256m", xmx="3g", timeout=900)
-        if r.rc != 0 or "limb-tuple definitions agree" not in r.out:
-            raise common.Infra("EcdsaBigSelf failed:\n" + r.out[-3000:])
-        ctx.tlc_stats(r, "EcdsaBigSelf")
-        _self_ok.append(1)
+    start_self_check()
+    _self["thread"].join()
+    if _self["err"]: raise common.Infra(_self["err"])
+    for r, mod in _self["runs"]: ctx.tlc_stats(r, mod)
+    _self["runs"] = []
 
 class Curve:
     def __init__(self, name, f):
@@ -91,47 +104,49 @@ def sign_verify_round(ctx, F, b, curves, rng, want_dh):
                 c.hash = bytes(rng.randrange(256) for _ in range(c.hlen))
                 c.sig_octets = min(c.hlen, sig_len)      # altering these octets alters e under every admissible reading
                 combos.append(c)
-    # round 1: key pairs
+    # round 1: key pairs, through the big-endian entry points (C09 judges the little-endian key export); a little-endian
+    # combo gets the same numbers with reversed octets
+    def ordv(c, bs): return bs if c.order == "be" else bs[::-1]
     lines = []
     for c in combos:
-        lines.append("keygen %s %s 1 1 %s" % (c.cv.name, c.order, hx(c.rnd_key)))
-        lines.append("keygen %s %s 0 1 %s" % (c.cv.name, c.order, hx(c.rnd_key)))
+        lines.append("keygen %s be 1 1 %s" % (c.cv.name, hx(c.rnd_key)))
+        lines.append("keygen %s be 0 1 %s" % (c.cv.name, hx(c.rnd_key)))
     res = R.run_lines(b, lines)
     live = []
     for i, c in enumerate(combos):
         a1, a2 = res[2 * i], res[2 * i + 1]
         if isinstance(a1, dict) or isinstance(a2, dict):
-            crash_key(F, "ecdsa_key_gen_" + c.order, b, lines[2 * i], a1 if isinstance(a1, dict) else a2); continue
+            crash_key(F, "ecdsa_key_gen_be", b, lines[2 * i], a1 if isinstance(a1, dict) else a2); continue
         f1, f2 = kvs(a1), kvs(a2)
         if f1["rc"] != "0" or f2["rc"] != "0":
             # the random number may legitimately stand for 0 only with negligible probability
-            F.add("ecdsa_key_gen_%s:fails-for-valid-input" % c.order, "build %s\ncase %s\n%s" % (b.name, lines[2 * i], a1), {"case": lines[2 * i], "build": b.name}); continue
-        c.priv = bytes.fromhex(f1["priv"]); c.comp = bytes.fromhex(f1["x"]); c.qx = bytes.fromhex(f2["x"]); c.qy = bytes.fromhex(f2["y"])
-        c.keygen_ok = True
-        if f2["priv"] != f1["priv"] or c.comp[1:] != c.qx or c.comp[0] != 2 + (val(c.qy, c.order) & 1):
-            F.add("ecdsa_key_gen_%s:forms-disagree" % c.order, "build %s\ncase %s\n%s\n%s" % (b.name, lines[2 * i], a1, a2), {"case": lines[2 * i], "build": b.name}); continue
+            F.add("ecdsa_key_gen_be:fails-for-valid-input", "build %s\ncase %s\n%s" % (b.name, lines[2 * i], a1), {"case": lines[2 * i], "build": b.name}); continue
+        priv = bytes.fromhex(f1["priv"]); comp = bytes.fromhex(f1["x"]); qx = bytes.fromhex(f2["x"]); qy = bytes.fromhex(f2["y"])
+        if f2["priv"] != f1["priv"] or comp[1:] != qx or comp[0] != 2 + (qy[-1] & 1):
+            F.add("ecdsa_key_gen_be:forms-disagree", "build %s\ncase %s\n%s\n%s" % (b.name, lines[2 * i], a1, a2), {"case": lines[2 * i], "build": b.name}); continue
+        c.priv = ordv(c, priv); c.qx = ordv(c, qx); c.qy = ordv(c, qy); c.comp = comp[:1] + c.qx; c.packed = b"\x04" + c.qx + c.qy
         live.append(c)
-    # round 2: public key from the private key (packed), signatures
+    # round 2: signatures.  A failing signer is not C03's subject (the statement speaks about signatures that were produced):
+    # the little-endian signer cannot export r, s on fields whose octet count is no multiple of the digit size (C01 / C09);
+    # such a combo continues with the signature of the big-endian entry point on the same numbers.
     lines = []
     for c in live:
-        lines.append("pubkey %s %s 0 0 %s" % (c.cv.name, c.order, hx(c.priv)))
         lines.append("sign %s %s %s %s %s %s" % (c.cv.name, c.alg[0], c.order, hx(c.hash), hx(c.priv), hx(c.rnd_sig)))
     res = R.run_lines(b, lines)
-    live2 = []
-    for i, c in enumerate(live):
-        a1, a2 = res[2 * i], res[2 * i + 1]
-        if isinstance(a1, dict): crash_key(F, "ecdsa_recover_pub_key_from_priv_key_" + c.order, b, lines[2 * i], a1); continue
-        if isinstance(a2, dict): crash_key(F, "ecdsa_sign_" + c.order, b, lines[2 * i + 1], a2); continue
-        f1, f2 = kvs(a1), kvs(a2)
-        if f1["rc"] != "0" or bytes.fromhex(f1["x"]) != b"\x04" + c.qx + c.qy:
-            F.add("ecdsa_recover_pub_key_from_priv_key_%s:differs-from-key-generation" % c.order,
-                  "build %s\ncase %s\n%s\nkey generation gave x=%s y=%s" % (b.name, lines[2 * i], a1, hx(c.qx), hx(c.qy)), {"case": lines[2 * i], "build": b.name}); continue
-        c.packed = b"\x04" + c.qx + c.qy
-        c.sign_rc = int(f2["rc"])
-        if c.sign_rc != 0:
-            F.add("ecdsa_sign_%s:%s:fails-for-valid-input" % (c.order, c.alg), "build %s\ncase %s\n%s" % (b.name, lines[2 * i + 1], a2), {"case": lines[2 * i + 1], "build": b.name}); continue
-        c.r = bytes.fromhex(f2["r"]); c.s = bytes.fromhex(f2["s"]); c.sign_line = lines[2 * i + 1]
-        live2.append(c)
+    retry = []
+    for ln, c, a in zip(lines, live, res):
+        c.sign_line = ln; c.r = None
+        if isinstance(a, dict): crash_key(F, "ecdsa_sign_" + c.order, b, ln, a); continue
+        f = kvs(a)
+        if f["rc"] == "0": c.r = bytes.fromhex(f["r"]); c.s = bytes.fromhex(f["s"])
+        elif c.order == "le" and len(c.hash) <= c.cv.bytes: retry.append(c)
+    lines = ["sign %s %s be %s %s %s" % (c.cv.name, c.alg[0], hx(c.hash[::-1]), hx(c.priv[::-1]), hx(c.rnd_sig[::-1])) for c in retry]
+    for ln, c, a in zip(lines, retry, R.run_lines(b, lines)):
+        if isinstance(a, dict): crash_key(F, "ecdsa_sign_be", b, ln, a); continue
+        f = kvs(a)
+        if f["rc"] == "0": c.r = bytes.fromhex(f["r"])[::-1]; c.s = bytes.fromhex(f["s"])[::-1]; c.sign_line = ln + "   (octets reversed)"; c.signed_by_be = True
+    live2 = [c for c in live if c.r is not None]
+    ctx.add(mode_c_signer_failures_not_judged=len(live) - len(live2))
     # round 3: verification of the valid tuple (every key form, both verifiers) and of altered tuples
     lines = []; meta = []
     def V(c, what, expect, h, r, s, x, y):
@@ -182,7 +197,7 @@ def sign_verify_round(ctx, F, b, curves, rng, want_dh):
         if (rc == 0) != expect:
             sym = ("rejects-own-signature:" + what) if expect else ("accepts-" + what)
             F.add("%s:%s:%s" % (fn, c.alg, sym), "build %s\ncase %s\nreturn code %d\nsigned by: %s" % (b.name, ln, rc, c.sign_line), {"case": ln, "build": b.name, "sign": c.sign_line})
-    return live2, n + 2 * len(combos) + 2 * len(live)
+    return live2, n + 2 * len(combos) + len(live) + len(retry)
 
 def events_for_tlc(combos, rng, count):
     """a handful of recorded tuples (valid and altered verifications, the signature itself, the key pair) as EcdsaTrace events"""
@@ -196,12 +211,13 @@ def events_for_tlc(combos, rng, count):
     kinds = ["sign", "verify-valid", "verify-altered", "keygen", "verifyp-altered", "verify-valid"]
     for i, c in enumerate(ordered[:count]):
         kind = kinds[i % len(kinds)]
+        if kind == "sign" and getattr(c, "signed_by_be", False): kind = "verify-valid"
         o = c.order; base = {"c": c.cv.tla(), "alg": c.alg, "order": o, "_build": c.b.name, "_curve": c.cv.name}
         q = [limbs(val(c.qx, o)), limbs(val(c.qy, o))]
         if kind == "sign":
             ev = dict(base, op="sign", hash=list(c.hash), d=limbs(val(c.priv, o)), rnd=list(c.rnd_sig), ok=True, r=limbs(val(c.r, o)), s=limbs(val(c.s, o)), _case=c.sign_line)
         elif kind == "keygen":
-            ev = dict(base, op="keygen", rnd=list(c.rnd_key), ok=True, d=limbs(val(c.priv, o)), q=q, _case="keygen %s %s %s" % (c.cv.name, o, hx(c.rnd_key)))
+            ev = dict(base, op="keygen", order="be", rnd=list(c.rnd_key), ok=True, d=limbs(val(c.priv, o)), q=q, _case="keygen %s be 1 1 %s" % (c.cv.name, hx(c.rnd_key)))
         else:
             want_valid = kind.endswith("valid")
             vs = [v for v in c.verdicts if v[2] == ("p" if kind.startswith("verifyp") else "v") and v[1].startswith("valid" if want_valid else "altered") and "other-key" not in v[1]]
@@ -249,35 +265,48 @@ def judge(ctx, F, evs, label, par=4):
             if v == "ok": continue
             fn = {"verify": "ecdsa_verify_", "verifyp": "ecdsa_verify_priv_key_", "sign": "ecdsa_sign_", "keygen": "ecdsa_key_gen_",
                   "pubkey": "ecdsa_recover_pub_key_from_priv_key_", "dh": "ecdsa_dh_"}[ev["op"]] + ev["order"]
-            key = "%s:%s:%s" % (fn, ev["alg"], v) if ev["op"] in ("verify", "verifyp", "sign") else "%s:%s" % (fn, v)
-            F.add(key, "decided by TLC (EcdsaTrace) on curve %s\nbuild %s\ncase %s" % (ev["_curve"], ev["_build"], ev["_case"]), {"case": ev["_case"], "build": ev["_build"]})
+            if v.startswith("hash-to-integer"): key = "ecdsa:" + v
+            elif v == "accepts-r=0": key = "ecdsa_verify:accepts-r=0"
+            elif v == "accepts-s=0" and ev["alg"] == "gost": key = "ecdsa_verify:gost:accepts-s=0"
+            elif ev["op"] in ("verify", "verifyp", "sign"): key = "%s:%s:%s" % (fn, ev["alg"], v)
+            else: key = "%s:%s" % (fn, v)
+            F.add(key, "%s (%s): decided by TLC (EcdsaTrace) on curve %s\nbuild %s\ncase %s" % (fn, ev["alg"], ev["_curve"], ev["_build"], ev["_case"]), {"case": ev["_case"], "build": ev["_build"]})
     return n
 
-def tier_c(ctx, F, builds, d):
+def rounds(ctx, F, builds):
+    """library part of tier C (can run while TLC works on tier B)"""
     t0 = time.time()
-    rng = random.Random(ctx.seed * 104729 + 7)
     curves = load_curves(builds[0])
     if len(curves) != 32: raise common.Infra("expected 32 built-in curves, the table has %d" % len(curves))
     def per_build(ib):
         i, b = ib
         r2 = random.Random(ctx.seed * 1009 + i)
-        cs = curves if i == 0 else r2.sample(curves, 6 if ctx.quick else 16)
-        return sign_verify_round(ctx, F, b, cs, r2, False)
-    with ThreadPoolExecutor(max_workers=min(4, len(builds))) as ex:
+        # the other builds: a seeded subset (quick: small curves; slow digit sizes / ASan make the big ones cost seconds per call)
+        if i == 0: cs = curves
+        elif ctx.quick: cs = r2.sample([c for c in curves if c.m <= (192 if b.asan else 256)], 2 if b.asan else 4)
+        else: cs = r2.sample(curves, 8 if b.asan else 16)
+        t1 = time.time()
+        out = sign_verify_round(ctx, F, b, cs, r2, False)
+        ctx.log("tier C: %s: %d calls on %d curves in %.0fs" % (b.name, out[1], len(cs), time.time() - t1))
+        return out
+    with ThreadPoolExecutor(max_workers=min(3, len(builds))) as ex:
         res = list(ex.map(per_build, enumerate(builds)))
+    return dict(res=res, ncurves=len(curves), t0=t0)
+
+def finish(ctx, F, st):
+    """TLC part of tier C: a handful of the recorded tuples are recomputed through BigNat"""
+    res = st["res"]
+    rng = random.Random(ctx.seed * 104729 + 7)
     calls = sum(n for _, n in res)
-    # builds must agree with each other: the same inputs give the same signature in every configuration
-    ref = {}
-    for combos, _ in res[:1]:
-        for c in combos: ref[(c.cv.name, c.alg, c.order)] = c
-    # (seeded inputs differ per build; agreement is established through TLC's verdicts on each build's tuples instead)
-    nq = (20 if ctx.quick else 200)
-    evs = events_for_tlc(res[0][0], rng, nq)
+    evs = events_for_tlc(res[0][0], rng, 20 if ctx.quick else 200)
     for combos, _ in res[1:]:
         evs += events_for_tlc(combos, rng, 2 if ctx.quick else 12)
     njudged = judge(ctx, F, evs, "c03")
     ctx.add(evaluations=calls, full_size_tuples_decided_by_tlc=njudged)
-    ctx.cov["mode_c"] = {"curves": len(curves), "algorithm_ids": 2, "byte_orders": 2, "library_calls": calls,
+    ctx.cov["mode_c"] = {"curves": st["ncurves"], "algorithm_ids": 2, "byte_orders": 2, "library_calls": calls,
                          "full_size_tuples_recomputed_by_TLC_through_BigNat": njudged,
                          "decided_by_round_trip_laws_only": calls - njudged}
-    ctx.log("tier C: %d library calls on %d curves, %d full-size tuples recomputed by TLC (%.0fs)" % (calls, len(curves), njudged, time.time() - t0))
+    ctx.log("tier C: %d library calls on %d curves, %d full-size tuples recomputed by TLC" % (calls, st["ncurves"], njudged))
+
+def tier_c(ctx, F, builds, d=None):
+    finish(ctx, F, rounds(ctx, F, builds))
